@@ -6,7 +6,7 @@ from fsgen import cq_fs, cq_tv, cq_path
 from tomlgen import render_doc, cq_jtv
 from props.c04 import cq_ins, BEH_COQ  # noqa
 
-NAMES = ["a", "b", "c"]
+NAMES = ["a", "a.b", "c"]      # "a.b": a dotted layer name next to its dot-free sibling
 METAS = [None, {}, {"version": "1.2"}, {"version": "2"}, {"version": 3}, {"a": {"b": [1, 2]}, "version": "x"}, {"other": True}]
 CORRUPT = [None, "{{ not toml", "", "[metadata]\nversion = 1\n", "[types]\nlaunch = true\n\n[metadata]\nversion = \"9\"\n",
            "foo = 1\n", "[types]\nbogus = true\n", "metadata = 3\n", "[types]\ncache = true\nbuild = true\n", "[metadata]\nversion = \"7\"\nextra = [1]\n"]
